@@ -596,7 +596,8 @@ def correspondence(ctx, broken_obligations=()):
                    % (((4, 4, 3) if ctx.quick else (5, 5, 4)) + (len(target_texts()),)))
     cov["exhaustive"] = True
     cov["samples"] = [pc.dec(cases[-1])[:200], pc.dec(cases[90000])[:120], pc.dec(pmc[0][1:])[:200]]
-    cov["refuted_guarded"] = ["C08_for_counter_refuted: K_ident of AstForBlock without end token (not a declaration; guard in C08_sel_in_full and in the oracle)"]
+    cov["refuted_guarded"] = ["C08_for_counter_refuted: K_ident of AstForBlock without end token (not a declaration; guard in C08_sel_in_full and in the oracle)",
+                              "C08_link_foreign_lines_refuted / C08_item_foreign_lines_refuted: a file aA.god that declares class aB next to a file aB.god: the link / hierarchy item made from a symbol of aA.god names aB.god and carries aA.god's ranges (lines that do not exist there); reproduced on the real code with the wstree engine; guard TablesAtHome / TablesAtHomeH in C08_definition_links_wf / C08_hierarchy_items_wf (file stem = declared class, the convention of the language)"]
     return cov
 
 
